@@ -79,7 +79,8 @@ def run(chk, facts):
 
     def coarse(key_):
         fn_, org_, kind_ = key_
-        return (fn_, org_.split(" .")[0], "pick-one" if kind_ in PICK else kind_)
+        # a loop that stops at the first element it accepts and `find` / `find_map` / `position` are one kind of consumer: a scan in hash order
+        return (fn_, org_.split(" .")[0], "pick-one" if kind_ in PICK else ("scan" if kind_ in (hashorder.ITER_KIND, "find", "find_map", "position", "rposition") else kind_))
     reviewed_coarse, cnt_coarse = {}, Counter()
     for key_, r_ in reviewed.items():
         c_ = coarse(key_)
